@@ -461,7 +461,7 @@ def stage_mc(ctx, st):
 
 
 READ_OPS = {"HasCollection", "ListCollections", "HasIndex", "ListIndexes", "FindById", "FindAll", "ForEach",
-            "FindFirst", "Count", "Exists", "Derived", "Export"}
+            "IterateDocs", "FindFirst", "Count", "Exists", "Derived", "Export"}
 
 
 def parse_emission(out):
